@@ -102,6 +102,10 @@ type RPC struct {
 	Creds     *CredSpec `json:"creds,omitempty"`
 	CtxVals   int      `json:"ctx_vals,omitempty"` // number of caller context values (C10)
 	StartStep int      `json:"start_step,omitempty"`
+	Expect       string `json:"expect,omitempty"`        // C12: own | none | either
+	KindMismatch bool   `json:"kind_mismatch,omitempty"` // C12: registered with the other call shape
+	RawClient bool     `json:"raw_client,omitempty"` // the client is the raw HTTP peer
+	ReqSpec   *MsgSpec `json:"req_spec,omitempty"`   // message encoded in a raw request body
 }
 
 type CredSpec struct {
@@ -146,6 +150,7 @@ type Op struct {
 	D   int64       `json:"d,omitempty"`   // duration ns
 	N   int         `json:"n,omitempty"`   // generic count / reference index
 	Ref string      `json:"ref,omitempty"` // for mutate: "s<i>" i-th sent, "r<i>" i-th received
+	Raw *RawReq     `json:"raw,omitempty"`
 }
 
 type MsgSpec struct {
